@@ -9,9 +9,11 @@
    IllegalMessageSequence, changes nothing and emits nothing.  (b) every trace is accepted by the
    document monitor, whose state is one record per open run: a document of run u reads and writes the
    record of u only, so the lifecycle and numbering guarantees hold for each run on its own.
-   set_run_key_wrapper is an instance of msg_mutator (C20). *)
+   set_run_key_wrapper (Pure/RunKey.v: the messages it yields; msg_mutator itself is C20's): unset run keys
+   are filled in, every key that is set - 0 and '' included - is kept, the inner wrapper wins. *)
 From Coq Require Import List ZArith Bool.
 From BV Require Import Engine.RE Engine.REInst Engine.DocMon Proofs.RE_Docs Proofs.RE_DocsMon Proofs.RE_DocsCor.
+From BV Require Pure.RunKey Proofs.RunKey.
 Import ListNotations.
 
 Theorem C14_message_touches_only_its_run :
@@ -61,6 +63,26 @@ Theorem C14_runs_well_formed_separately :
     docs_ok rec (snd (run_steps P presume plan_of D dev (init P D d paus stag rec) evs)) = true.
 Proof. exact run_docs_ok. Qed.
 Print Assumptions C14_runs_well_formed_separately.
+
+(* set_run_key_wrapper(plan, k): same messages, same order; only unset run keys become k *)
+Theorem C14_set_run_key_wrapper :
+  forall (k : nat) (plan : list RunKey.kmsg),
+    List.length (RunKey.wrap k plan) = List.length plan /\
+    map fst (RunKey.wrap k plan) = map fst plan /\
+    map snd (RunKey.wrap k plan) = map (fun r => match r with None => Some k | Some x => Some x end) (map snd plan).
+Proof. exact Proofs.RunKey.wrap_spec. Qed.
+Print Assumptions C14_set_run_key_wrapper.
+
+Theorem C14_set_run_key_nested :
+  forall (outer inner : nat) (plan : list RunKey.kmsg),
+    RunKey.wrap outer (RunKey.wrap inner plan) = RunKey.wrap inner plan.
+Proof. exact Proofs.RunKey.wrap_nested. Qed.
+Print Assumptions C14_set_run_key_nested.
+
+Example C14_run_key_nonvacuous :
+  map snd (RunKey.wrap 7 (RunKey.wrap 0 [(0, None); (1, Some 0); (2, Some 3)])) = [Some 0; Some 0; Some 3] /\
+  map snd (RunKey.wrap 0 [(0, None); (1, Some 5)]) = [Some 0; Some 5].
+Proof. split; reflexivity. Qed.
 
 (* non-vacuity: two nested keyed runs under a pause/resume (recorded from the implementation):
    both runs get their own numbering and their own stop *)
